@@ -230,6 +230,20 @@ CLAIMED = {
          "process-level nondeterminism (hash seeds) only; same binary, same options; library API instead of the parol binary.",
          "TLC-enumerated tie grammars (the inputs on which the outcome could depend on iteration order) run in M processes and compared",
          "DESIGN.md §6 C24"),
+ "C22": ("exploration",
+         "Gen_Flags.tla enumerates combinations of the AST-relevant PAR features; each template grammar is generated through the real "
+         "parol::build::Builder into one crate (stub user type as `parol new` writes it, path dependency on the repository's parol_runtime) "
+         "and `cargo build --offline` must succeed; errors are attributed to the generated module.",
+         "rustc is the oracle; subsets of <= 2 (3) features and complements of <= 1; one template shape.",
+         "TLC-enumerated feature combinations, real Builder, rustc as oracle",
+         "DESIGN.md §6 C22"),
+ "C23": ("exploration",
+         "Same crate as C22, then run: for the sentences of each template (0/1/3 repetitions, optional present/absent, both group alternatives) "
+         "the start symbol's user action must be called exactly once and the tokens in the Debug rendering of its argument, in order, must "
+         "be the input's non-clipped tokens; the optional member is Some iff it occurred.",
+         "expected token lists come from the template's own construction in lib/p_gen.py; one template shape.",
+         "TLC-enumerated feature combinations, compile-and-run comparison of the typed AST with the input",
+         "DESIGN.md §6 C23"),
 }
 
 NOT_YET = "check not built yet in this round (see DESIGN.md §11.2 build order); will be claimed once its quick check passes on the unchanged tree"
